@@ -9,6 +9,10 @@ from rules import common
 from rules.C07 import _key_is, guard_continue, block_of
 
 EXPLANATION = (
+    "Typestate analysis of compile() (rule C08.T1): the statements of compile() are interpreted over an abstract "
+    "state that tracks one arbitrary module through every local map, with every component call returning or raising "
+    "any package error class, every option setting and every iteration order; invariants are evaluated at the "
+    "component calls and at every return (see rules/compile_ts.py INV). "
     "CFG and dataflow rules on compile()'s discovery loop and on the symbol-table pass that feeds it: the work list "
     "only grows by the complete `imported` list of each successfully analysed module; every iteration records the "
     "popped name itself in a set that a guard at the top of the loop tests (so a name is fetched at most once and "
@@ -20,7 +24,7 @@ ASSUMPTIONS = [
     "a reader returns finitely many modules per name; names compare by string equality",
     "falling through to the next source after a parse *error* (today's behaviour) is not judged",
 ]
-TECHNIQUE = 'CFG reachability with avoid-sets (seen-set discipline), provenance of the work-list growth'
+TECHNIQUE = 'CFG reachability with avoid-sets (seen-set discipline), provenance of the work-list growth; typestate abstract interpretation of compile() (path-sensitive dataflow over a finite per-module domain, rules/compile_ts.py)'
 
 
 def discovery(r):
@@ -401,5 +405,13 @@ def r6_argument_agreement(chk):
 
 
 
+
+def t1_typestate(chk):
+    """typestate analysis of compile() (rules/compile_ts.py): end-to-end bookkeeping invariants for an arbitrary
+    module over every outcome of every component call"""
+    from rules import compile_ts
+    compile_ts.ts_rule(chk, 'C08.T1', ['fetch-once', 'closure', 'accounted'])
+
+
 RULES = [r1_worklist_growth, r2_seen_set, r3_ordering, r4_first_hit, r5_no_mutation_while_iterating,
-         r6_argument_agreement]
+         r6_argument_agreement, t1_typestate]
